@@ -36,8 +36,16 @@ class LifeTransport(FakeTransport):
     def __init__(self, connect_fail: bool, disconnect_fail: bool) -> None:
         super().__init__()
         self.connect_fail, self.disconnect_fail = connect_fail, disconnect_fail
+        self.connect_hangs = False
+        self.connecting = False
 
     async def connect(self) -> None:
+        if self.connect_hangs:
+            self.connecting = True
+            try:
+                await asyncio.get_running_loop().create_future()    # until the caller is cancelled
+            finally:
+                self.connecting = False
         self.connected += 1
         if self.connect_fail:
             self.connected -= 1
@@ -101,6 +109,9 @@ class LifeRun:
             with open(self.path, "w") as fil:
                 fil.write("{}")
         self.transport, self.counters, self.patches = make_transport(scen["transport"], scen["connect_fail"], scen["disconnect_fail"])
+        scen.setdefault("connect_cancel", False)
+        if scen["connect_cancel"]:
+            self.transport.connect_hangs = True
         self.gateway = Gateway(self.transport, Config(persistence_file=self.path))
         self.events: list[dict] = []
         self.inside = False
@@ -210,6 +221,8 @@ class LifeRun:
                     cmds.append(("job", who, "run"))
             else:
                 cmds.append(("job", who, "deliver"))
+        if getattr(self.transport, "connecting", False) and not self.main.done():
+            cmds.append(("cancel",))
         if self.inside and not self.finished_body:
             cmds.append(("finish", self.scen["finish"]))
             if self.mutations < self.scen["max_mutations"] and (not self.events or self.events[-1]["e"] != "mutate"):
@@ -241,6 +254,12 @@ class LifeRun:
             self.body_future.set_result(cmd[1])
             self.loop.settle()
             self.observe("finish", kind=cmd[1])
+        elif op == "cancel":
+            if not getattr(self.transport, "connecting", False) or self.main.done():
+                return False
+            self.main.cancel()
+            self.loop.settle()
+            self.observe("cancel")
         elif op == "mutate":
             if not self.inside:
                 return False
@@ -273,6 +292,9 @@ class LifeRun:
                 continue
             if self.inside and not self.finished_body:
                 self.do(("finish", self.scen["finish"]))
+                continue
+            if getattr(self.transport, "connecting", False) and not self.main.done():
+                self.do(("cancel",))
                 continue
             break
         self.loop.settle()
@@ -388,6 +410,7 @@ def scenarios(tier: str) -> list[dict]:
     out.append(dict(base, transport="fake", connect_fail=False, disconnect_fail=True, finish="ok"))
     out.append(dict(base, transport="fake", connect_fail=False, disconnect_fail=True, finish="raise"))
     out.append(dict(base, transport="fake", connect_fail=True, disconnect_fail=False, finish="ok"))
+    out.append(dict(base, transport="fake", connect_fail=False, connect_cancel=True, disconnect_fail=False, finish="ok"))
     out.append(dict(base, transport="fake", connect_fail=False, disconnect_fail=False, finish="ok", file="missing"))
     out.append(dict(base, transport="fake", connect_fail=False, disconnect_fail=False, finish="ok", prior_session=True, max_ticks=2))
     out.append(dict(base, transport="fake", connect_fail=False, disconnect_fail=False, finish="raise", prior_session=True, max_ticks=2, max_run_only=0))
@@ -410,7 +433,7 @@ def judge(runs: list, workdir: str, shards: int):
             return [], 0
         path = os.path.join(workdir, f"life-runs-{k}.json")
         with open(path, "w") as fil:
-            json.dump({"runs": [{"scen": {a: b for a, b in r["scen"].items() if a in ("connect_fail", "disconnect_fail", "finish", "transport")},
+            json.dump({"runs": [{"scen": {a: b for a, b in r["scen"].items() if a in ("connect_fail", "connect_cancel", "disconnect_fail", "finish", "transport")},
                                  "events": r["events"]} for r in part]}, fil)
         out = tlc.run(workdir, "LifecycleMonitor", "LifecycleMonitor.cfg", workers=1, env={"TRACE_FILE": path})
         os.unlink(path)
@@ -446,7 +469,8 @@ def model_schedules(workdir: str, tier: str) -> tuple[list, dict]:
 
 
 def concretise(s: dict) -> tuple[dict, list]:
-    scen = {"transport": "fake", "connect_fail": s["connectFails"], "disconnect_fail": s["disconnectFails"],
+    scen = {"transport": "fake", "connect_fail": s["connectFails"] == "fail", "connect_cancel": s["connectFails"] == "cancel",
+            "disconnect_fail": s["disconnectFails"],
             "finish": "raise" if s["bodyRaises"] else "ok", "max_mutations": 9, "max_ticks": 9, "max_run_only": 9, "file": "existing"}
     cmds = []
     for a in s["hist"]:
@@ -458,6 +482,8 @@ def concretise(s: dict) -> tuple[dict, list]:
             cmds.append(("mutate",))
         elif a[0] == "tick":
             cmds.append(("tick",))
+        elif a[0] == "cancel":
+            cmds.append(("cancel",))
     return scen, cmds
 
 
